@@ -759,17 +759,6 @@ func corr(cases []caseLine, repo string) {
 	}
 }
 
-// classifySlice: a slice whose PPS uses slice-group map types 3..5 carries slice_group_change_cycle, whose
-// width the implementation derives from a PPS field that is not coded for these map types.
-func classifySlice(r result, bad []string) string {
-	for _, b := range bad {
-		if b != "SliceGroupChangeCycle" && b != "Size" {
-			return "field-mismatch"
-		}
-	}
-	return "slice-group-change-cycle-width"
-}
-
 func siteOf(kind string) string {
 	switch kind {
 	case "SPS":
@@ -841,14 +830,11 @@ func search(cases []caseLine) {
 				onlyOff = false
 			}
 		}
-		// the two known findings are accepted only on cases the model-side generator marked as lying
-		// outside the theorems' guards (g = 0: an SPS with non-zero se(v) offsets, a slice whose PPS uses
-		// slice-group map types 3..5); the same fields going wrong on any other case is a new failure
+		// the known finding F2 is accepted only on cases the model-side generator marked as lying outside
+		// the theorem's guard (g = 0: an SPS with non-zero se(v) offsets); the same fields going wrong on any
+		// other case is a new failure.  (F7, the slice_group_change_cycle width, is fixed: no slice class.)
 		if onlyOff && c.kind == "SPS" && c.g == "0" {
 			class = "se-read-as-ue"
-		}
-		if c.kind == "SLICE" && c.g == "0" {
-			class = classifySlice(r, bad)
 		}
 		if cl := classifyHevc(c, bad); cl != "" {
 			class = cl
